@@ -44,7 +44,7 @@ def main(argv=None) -> int:
         acc = Acc()
         violations: list[dict] = []
         rdir = os.path.join(harness.VERIF, "replays")
-        if os.path.isdir(rdir):  # replay files of an earlier run of this check are stale
+        if os.path.isdir(rdir) and not os.environ.get("VERIF_NO_EVIDENCE"):  # replay files of an earlier run of this check are stale
             for fn in os.listdir(rdir):
                 if fn.startswith(prop + "_"):
                     os.remove(os.path.join(rdir, fn))
